@@ -228,14 +228,29 @@ func runC01(r *Run, replay *Case) {
 			if (s.name == "vtext" || s.name == "attr-bound" || s.name == "class-bound") && nb.name != "plain" {
 				continue // these sinks have no static neighbours
 			}
+			hostSink := strings.HasPrefix(s.name, "text-") || s.name == "attr-in-noscript"
+			if hostSink && nb.name != "plain" && nb.name != "none" && nb.name != "entity" {
+				continue // the raw-text / RCDATA hosts: three neighbourhoods
+			}
 			for _, con := range c01Constructs {
 				for vi, val := range values {
 					if !r.Thorough() && vi >= len(c01Nasty) && (vi+idx)%23 != 0 {
 						continue
 					}
+					// thorough: the full alphabet enumeration up to length 2 everywhere, length 3 on a rotating seventh (a third for the original six sinks)
+					if r.Thorough() && len(val) > 0 && vi >= len(c01Nasty)+len(c01Symbols)+18*19 {
+						mod := 3
+						if hostSink {
+							mod = 7
+						}
+						if (vi+idx)%mod != 0 {
+							continue
+						}
+					}
 					r.Add(c01Eval(s, nb, con, val))
 				}
 				idx++
+				flushPages(r)
 			}
 		}
 	}
